@@ -75,7 +75,7 @@ class Ctx:
     def violation(self, kind, detail, case):
         self.violations_total += 1
         self.count(f"violation.{kind}")
-        v = dict(kind=kind, detail=str(detail)[:4000], case=case, tz=os.environ.get("TZ"),
+        v = dict(kind=kind, detail=str(detail)[:4000], case=case, tz=os.environ.get("TZ"), hashseed=int(os.environ.get("PYTHONHASHSEED") or 0),
                  wdir=os.path.basename(os.environ.get("AWVERIF_TMP", "")) or None)
         key = kind
         if self.classify:
